@@ -453,6 +453,8 @@ def family_specs(rng, n_random, langs=("java", "kotlin", "groovy", "scala"), qui
 
 
 def make_spec(name, desc, lang):
+    if lang == "scala" and "Num" in used_names(desc, set()):
+        lang = "kotlin"       # scala's Int is not a subtype of Number: the descriptor would be ill-typed there
     return {"family": desc, "name": name, "lang": lang, "seed": 0, "switches": [0, 0, 0, 0], "max_depth": 0,
             "stages": ["gen", "erase"], "export": True, "translate": [lang] if lang in ("java", "kotlin") else None,
             "cap": 30, "plugins": ["plugin_tda"], "erasure_options": {}}
